@@ -196,6 +196,13 @@ def invalid_name_cases():
     from txdbus.error import MarshallingError
     bad = {'path': ['', 'a', '/a/', '/a//b', '/a.b', '/\u00e9'], 'interface': ['', 'a', 'a.', '.a.b', 'a..b', 'a.1b', 'a b.c'],
            'member': ['', '1a', 'a.b', 'a-b', 'a b'], 'destination': ['', 'a', ':1', ':.a', 'a.b.', ':1..2', 'a.b c'], 'error_name': ['', 'a', 'a.', 'a..b']}
+    # letters and digits outside ASCII are not name characters; names are at most 255 characters long
+    foreign = ['Gr\u00f6\u00dfe', 'caf\u00e9', '\u0394t', 'x\u0663', '\u00e9', 'a\u00aa', 'x\u00b2']
+    bad['member'] += foreign + ['a' * 256]
+    bad['interface'] += ['a.' + x for x in foreign] + [x + '.b' for x in foreign] + ['a.' + 'b' * 254]
+    bad['error_name'] += ['a.' + x for x in foreign] + ['a.' + 'b' * 254]
+    bad['destination'] += ['a.' + x for x in foreign] + [':1.' + x for x in foreign] + ['a.' + 'b' * 254]
+    bad['path'] += ['/' + x for x in foreign] + ['/a/' + foreign[0] + '/b']
     mk = {'MethodCallMessage': lambda **k: message.MethodCallMessage(k.get('path', '/p'), k.get('member', 'M'), interface=k.get('interface'), destination=k.get('destination')),
           'SignalMessage': lambda **k: message.SignalMessage(k.get('path', '/p'), k.get('member', 'M'), k.get('interface', 'a.b'), destination=k.get('destination')),
           'MethodReturnMessage': lambda **k: message.MethodReturnMessage(1, destination=k.get('destination')),
